@@ -4,6 +4,7 @@ import (
 	"bufio"
 	"bytes"
 	"encoding/json"
+	"errors"
 	"fmt"
 	"io"
 	"net"
@@ -273,7 +274,8 @@ func rawHTTP(addr, method, path string, body []byte, timeout time.Duration) (sta
 		}
 		done <- e
 	}()
-	resp, rerr := http.ReadResponse(bufio.NewReader(c), &http.Request{Method: method})
+	br := bufio.NewReader(c)
+	resp, rerr := http.ReadResponse(br, &http.Request{Method: method})
 	if rerr != nil {
 		werr := <-done
 		return 0, nil, fmt.Errorf("no complete response: %v (write: %v)", rerr, werr)
@@ -283,8 +285,19 @@ func rawHTTP(addr, method, path string, body []byte, timeout time.Duration) (sta
 	if rerr != nil {
 		return resp.StatusCode, b, fmt.Errorf("response body incomplete: %v", rerr)
 	}
+	if method == "HEAD" && len(body) == 0 {
+		// (a HEAD request that itself carries a body is left out: fasthttp does not consume it, so it is read as a second,
+		// malformed request and answered with a second response — a property of the HTTP library, not of the service)
+		// the answer to HEAD ends with the header block; the request said "Connection: close", so everything the server
+		// still sends before closing would be read as the start of the next response on a reused connection
+		if rest, _ := io.ReadAll(io.LimitReader(br, 1<<20)); len(rest) > 0 {
+			return resp.StatusCode, b, fmt.Errorf("%w: %d bytes follow the header block (%q...)", errHeadBody, len(rest), trunc(string(rest), 60))
+		}
+	}
 	return resp.StatusCode, b, nil
 }
+
+var errHeadBody = errors.New("the response to HEAD carries a body")
 
 func checkC19(c c19Case) verdict {
 	sv := server()
@@ -314,6 +327,9 @@ func checkC19(c c19Case) verdict {
 			status, rb, err = r.Status, r.Body, r.Err
 		} else {
 			status, rb, err = rawHTTP(sv.addr, h.Method, h.Path, body, 5*time.Second)
+		}
+		if errors.Is(err, errHeadBody) {
+			return bad(true, labels, "request %d: HEAD %s: %v — not a complete, correctly framed HTTP response", i, trunc(h.Path, 80), err)
 		}
 		if err != nil && class != "over-limit-body" {
 			// once more, alone, with a long budget: only a second miss counts
@@ -559,7 +575,7 @@ func TestC19_Hostile(t *testing.T) {
 		gap := rapid.IntRange(3, 5).Draw(t, "gap")
 		for i := 0; i < n; i++ {
 			if i%gap == gap-1 {
-				p := restStep{Ep: rapid.SampledFrom([]string{"hotp-gen", "totp-gen", "ocra-gen", "hotp-val", "totp-val", "totp-val"}).Draw(t, "probeEp"), Key: rapid.SliceOfN(rapid.Byte(), 1, 30).Draw(t, "probeKey"), Sp: gen.Spelling{Pad: 1}}
+				p := restStep{Ep: rapid.SampledFrom([]string{"hotp-gen", "totp-gen", "ocra-gen", "hotp-val", "totp-val", "totp-val", "secret", "secret", "suites"}).Draw(t, "probeEp"), Key: rapid.SliceOfN(rapid.Byte(), 1, 30).Draw(t, "probeKey"), Sp: gen.Spelling{Pad: 1}}
 				p.HasCtr, p.Ctr = true, rapid.Uint64Range(20, 1<<40).Draw(t, "probeCtr")
 				p.HasTS, p.TS = true, int64(rapid.Uint64Range(1, 1<<40).Draw(t, "probeTS"))
 				p.RawName = "OCRA-1:HOTP-SHA256-8:QN10"
@@ -571,6 +587,10 @@ func TestC19_Hostile(t *testing.T) {
 					p.Cfg = drawUsableCfg(t)
 					p.HashStr = []string{"SHA1", "SHA256", "SHA512"}[p.Cfg.Hash]
 					p.In = drawAdmissible(t, p.Cfg)
+				}
+				if p.Ep == "secret" {
+					// GET /otp/secret: must keep answering with a fresh, well-formed secret however many were handed out
+					p.HasAlg, p.Alg = rapid.Bool().Draw(t, "probeSecretAlg"), rapid.SampledFrom([]string{"SHA1", "SHA256", "SHA512"}).Draw(t, "probeAlg")
 				}
 				p.Fresh = rapid.Bool().Draw(t, "probeFresh")
 				c.Reqs = append(c.Reqs, hostileReq{Probe: true, ProbeReq: p})
